@@ -986,6 +986,24 @@ class Gen:
         loops = []  # loop sites in source order: (node, kind)
         closure_locals = {}  # name -> Local node (for R4)
 
+        # R48 (`mapunwrap=result|option`): `X.map(|p| E).unwrap_or(V)`  ->  `match X { Ok(p)/Some(p) => E, Err(_)/None => V }`
+        mu = [o[10:] for o in it["opts"] if o.startswith("mapunwrap=")]
+        if mu:
+            okp, errp = ("Ok", "Err(_)") if mu[0] == "result" else ("Some", "None")
+            for n in walk(body):
+                if n["k"] == "MethodCall" and n["a"]["method"] == "unwrap_or" and len(kids(n, "arg")) == 1 and kid(n, "receiver")["k"] == "MethodCall" \
+                        and kid(n, "receiver")["a"]["method"] == "map" and len(kids(kid(n, "receiver"), "arg")) == 1 and kids(kid(n, "receiver"), "arg")[0]["k"] == "Closure":
+                    mp = kid(n, "receiver")
+                    X = kid(mp, "receiver")
+                    clo = kids(mp, "arg")[0]
+                    pv = T(kids(clo, "input")[0])
+                    E = kid(clo, "body")
+                    Vv = kids(n, "arg")[0]
+                    ed.replace(n["s"], X["s"], "(match ", ("rule", "R48"))
+                    ed.replace(X["e"], E["s"], f" {{ {okp}({pv}) => ", ("rule", "R48"))
+                    ed.replace(E["e"], Vv["s"], f", {errp} => ", ("rule", "R48"))
+                    ed.replace(Vv["e"], n["e"], " })", ("rule", "R48"))
+                    self.fired("R48")
         # R47: a byte-string literal `b"..."` in a body -> generated function returning the same literal (`ensures r@ =~= seq![..]`)
         for n in walk(body):
             if n["k"] == "Lit" and n["a"]["lit"].startswith('b"'):
@@ -1380,6 +1398,8 @@ class Gen:
             m = n["a"]["method"]
             args = kids(n, "arg")
             O = kid(n, "receiver")
+            if m == "map" and any(o.startswith("mapunwrap=") for o in it["opts"]) and n["p"]["k"] == "MethodCall" and n["p"]["a"]["method"] == "unwrap_or":
+                continue  # R48
             if m == "filter" and O["k"] == "MethodCall" and O["a"]["method"] in ("iter", "into_iter", "skip", "enumerate", "chars", "lines"):
                 continue  # iterator filter, not Option::filter
             if O["k"] in ("Paren", "Range") or (O["k"] == "MethodCall" and O["a"]["method"] in ("iter", "into_iter", "skip", "enumerate", "chars", "lines", "windows", "captures", "position")):
